@@ -578,6 +578,11 @@ func (g *c09Gen) arg(t ast.Type, depth int, inject *c09Mode) (c09Arg, bool) {
 			return out, true
 		case ast.KindMap:
 			n := 1 + g.r.intn(2)
+			if *inject == c09FailPlain {
+				// Go ranges over the map in random order: with a second entry that may fail
+				// too, panic-or-return would be a coin flip
+				n = 1
+			}
 			out := c09Arg{Kind: 'd'}
 			for i := 0; i < n; i++ {
 				x, ok := g.arg(t.Map.ValueType, depth+1, inject)
@@ -998,4 +1003,123 @@ func c09ParseSpec(builder, text string) (*c09Spec, error) {
 		return nil, err
 	}
 	return &c09Spec{Builder: builder, Ctor: ctor, Calls: calls}, nil
+}
+
+// violates: does the plain JSON value v break a constraint of the IR type t (looking through
+// aliases, as the source schema means it)?  Used for pinned runs, whose arguments carry no flag.
+func (g *c09Gen) violates(t ast.Type, v JV, depth int) bool {
+	if depth > 8 {
+		return false
+	}
+	switch t.Kind {
+	case ast.KindScalar:
+		for _, c := range t.Scalar.Constraints {
+			if len(c.Args) == 0 {
+				continue
+			}
+			switch c.Op {
+			case ast.MinLengthOp, ast.MaxLengthOp:
+				n, ok := toInt64(c.Args[0])
+				if !ok || v.K != 's' {
+					continue
+				}
+				l := int64(len([]rune(v.S)))
+				if (c.Op == ast.MinLengthOp && l < n) || (c.Op == ast.MaxLengthOp && l > n) {
+					return true
+				}
+			default:
+				b, ok := toFloat(c.Args[0])
+				if !ok || v.K != 'n' {
+					continue
+				}
+				x, err := strconv.ParseFloat(v.S, 64)
+				if err != nil {
+					continue
+				}
+				switch c.Op {
+				case ast.GreaterThanEqualOp:
+					if !(x >= b) {
+						return true
+					}
+				case ast.GreaterThanOp:
+					if !(x > b) {
+						return true
+					}
+				case ast.LessThanEqualOp:
+					if !(x <= b) {
+						return true
+					}
+				case ast.LessThanOp:
+					if !(x < b) {
+						return true
+					}
+				}
+			}
+		}
+	case ast.KindArray:
+		if v.K == 'a' {
+			for _, e := range v.A {
+				if g.violates(t.Array.ValueType, e, depth+1) {
+					return true
+				}
+			}
+		}
+	case ast.KindMap:
+		if v.K == 'o' {
+			for _, e := range v.O {
+				if g.violates(t.Map.ValueType, e.V, depth+1) {
+					return true
+				}
+			}
+		}
+	case ast.KindRef:
+		o, ok := g.object(t.Ref)
+		if ok && o.Type.Kind != ast.KindStruct {
+			return g.violates(o.Type, v, depth+1)
+		}
+	}
+	return false
+}
+
+// flagViolations sets Violates on the plain arguments of a parsed run
+func (g *c09Gen) flagViolations(t ast.Type, a *c09Arg) {
+	switch a.Kind {
+	case 'j':
+		if !g.resolvesToBuilder(t) {
+			a.Violates = g.violates(t, a.J, 0)
+		}
+	case 'l':
+		if t.Kind == ast.KindArray {
+			for i := range a.L {
+				g.flagViolations(t.Array.ValueType, &a.L[i])
+			}
+		}
+	case 'd':
+		if t.Kind == ast.KindMap {
+			for i := range a.DV {
+				g.flagViolations(t.Map.ValueType, &a.DV[i])
+			}
+		}
+	case 'b':
+		for _, b := range g.bs {
+			if b.Name == a.B {
+				for i := range a.Ctor {
+					if i < len(b.Constructor.Args) {
+						g.flagViolations(b.Constructor.Args[i].Type, &a.Ctor[i])
+					}
+				}
+				for ci := range a.Calls {
+					for _, o := range b.Options {
+						if o.Name == a.Calls[ci].Opt {
+							for i := range a.Calls[ci].Args {
+								if i < len(o.Args) {
+									g.flagViolations(o.Args[i].Type, &a.Calls[ci].Args[i])
+								}
+							}
+						}
+					}
+				}
+			}
+		}
+	}
 }
